@@ -135,7 +135,11 @@ func (w *World) Run(sc *Scenario, o RunOpts) *Outcome {
 		tmp = filepath.Join(w.DiskRoot, "s"+strconv.Itoa(o.Slot), "tmp")
 		_ = os.RemoveAll(tmp)
 	}
-	if err := os.MkdirAll(tmp, 0700); err != nil {
+	if sc.TmpMissing {
+		if err := os.MkdirAll(filepath.Dir(tmp), 0755); err != nil {
+			harnessPanic("mkdir %v", err)
+		}
+	} else if err := os.MkdirAll(tmp, 0700); err != nil {
 		harnessPanic("mkdir %v", err)
 	}
 	defer func() {
